@@ -47,12 +47,13 @@ contains
     end do
   end subroutine helper
 
-  subroutine k(n, a, b, o, r)
+  subroutine k(n, a, b, o, r, y3)
     integer, intent(in) :: n
     real, intent(inout) :: a(n), b(n, 2)
+    real, intent(inout) :: y3(2, n, 2)
     type(outer_t), intent(inout) :: o
     real, intent(inout) :: r
-    integer :: i
+    integer :: i, j, kk
     real :: x
 {body}
   end subroutine k
@@ -79,4 +80,9 @@ def cases():
     one('own-subscripts-on-component-array', '    associate(vv => o%inn%v)\n      do i=1,3\n        vv(i) = vv(i)*i + o%k\n      end do\n      r = vv(2)\n    end associate')
     one('two-blocks', '    associate(s => o%s)\n      s = s + 1.0\n    end associate\n    associate(s => o%inn%w)\n      s = s + 2.0\n      r = s\n    end associate')
     one('inside-loop-and-if', '    do i=1,n\n      associate(ai => a(i))\n        if (ai > r) then\n          ai = r\n        else\n          b(i, 1) = ai\n        end if\n      end associate\n    end do')
+    one('fixed-before-range', '    associate(row => b(2, :))\n      do i=1,2\n        row(i) = row(i) + a(i)*i\n      end do\n      r = row(1)\n    end associate')
+    one('fixed-before-range-var', '    do j=1,n\n      associate(row => b(j, :))\n        row(1) = a(j)\n        row(2) = row(1) - r\n      end associate\n    end do')
+    one('3d-middle-fixed', '    kk = 2\n    associate(pl => y3(:, kk, :))\n      do i=1,2\n        do j=1,2\n          pl(i, j) = pl(i, j) + i*10 + j\n        end do\n      end do\n    end associate')
+    one('nested-sections', '    kk = 1\n    associate(slab => y3(:, :, kk))\n      do j=1,2\n        associate(line => slab(j, :))\n          do i=1,n\n            line(i) = line(i)*2.0 + i + j*10\n          end do\n        end associate\n      end do\n    end associate')
+    one('3d-first-fixed', '    associate(pl => y3(2, :, :))\n      do i=1,n\n        pl(i, 1) = a(i)\n        pl(i, 2) = pl(i, 1) + 1.0\n      end do\n    end associate')
     return out
